@@ -17,7 +17,8 @@ Two notions of identity, both proved:
  (B) the endpoints of a well-formed frame of a declared link type (`wireEndpoints`, read off the
      RFCs): what the property statement says literally.
 The full statements are false for the code as it is; the exclusion classes `KF.C18.*` each have a
-kernel-checked witness below.
+kernel-checked witness below. (The former class IPv4 IHL < 5 was removed by fix 68f354c: the
+hashers read the ports at max(ihl*4, 20) like pnet.)
 -/
 namespace Huginn.Props.C18
 open Huginn.Wire Huginn.Wire.Spec
@@ -56,9 +57,9 @@ def FullAffinityTls : Prop :=
 
 /-- **affinity_tcp.** Two frames in which the TCP analyzer sees the same source address reach the
 same worker, for every hash function and worker count — whatever their payload, flags, lengths,
-ports, destination. (Outside the framing classes; IHL is irrelevant here.) -/
+ports, destination, IP header length. (Outside the framing classes.) -/
 theorem affinity_tcp_partial (H : HashIn → Nat) (n : Nat) (f₁ f₂ : Bytes) (k : IpVer × Bytes)
-    (h₁ : ¬ KF.C18.seen .tcp false f₁) (h₂ : ¬ KF.C18.seen .tcp false f₂)
+    (h₁ : ¬ KF.C18.seen .tcp f₁) (h₂ : ¬ KF.C18.seen .tcp f₂)
     (i₁ : identityTcp f₁ = some k) (i₂ : identityTcp f₂ = some k) :
     workerTcp H n f₁ = workerTcp H n f₂ := by
   unfold identityTcp analyzerEndpoints at i₁ i₂
@@ -76,13 +77,13 @@ theorem affinity_tcp_partial (H : HashIn → Nat) (n : Nat) (f₁ f₂ : Bytes) 
         simp only at a b; rw [a, b]
       rw [this]
 
-example : ¬ KF.C18.seen .tcp false wOkA ∧ ¬ KF.C18.seen .tcp false wOkB ∧
+example : ¬ KF.C18.seen .tcp wOkA ∧ ¬ KF.C18.seen .tcp wOkB ∧
     identityTcp wOkA = identityTcp wOkB ∧ identityTcp wOkA ≠ none ∧ wOkA ≠ wOkB := by decide
 
 /-- **affinity_tls.** Same directed 4-tuple as the TLS analyzer sees it ⇒ same worker (or both
 discarded). -/
 theorem affinity_tls_partial (H : HashIn → Nat) (n : Nat) (f₁ f₂ : Bytes) (k : Ep)
-    (h₁ : ¬ KF.C18.seen .tls true f₁) (h₂ : ¬ KF.C18.seen .tls true f₂)
+    (h₁ : ¬ KF.C18.seen .tls f₁) (h₂ : ¬ KF.C18.seen .tls f₂)
     (i₁ : identityTls f₁ = some k) (i₂ : identityTls f₂ = some k) :
     workerTls H n f₁ = workerTls H n f₂ := by
   unfold identityTls analyzerEndpoints at i₁ i₂
@@ -99,7 +100,7 @@ theorem affinity_tls_partial (H : HashIn → Nat) (n : Nat) (f₁ f₂ : Bytes) 
 /-- **affinity_http**, relational form: the endpoints the HTTP analyzer sees in the two frames are
 equal up to direction ⇒ same worker. -/
 theorem affinity_http_sameConn (H : HashIn → Nat) (n : Nat) (f₁ f₂ : Bytes) (e₁ e₂ : Ep)
-    (h₁ : ¬ KF.C18.seen .http true f₁) (h₂ : ¬ KF.C18.seen .http true f₂)
+    (h₁ : ¬ KF.C18.seen .http f₁) (h₂ : ¬ KF.C18.seen .http f₂)
     (i₁ : analyzerEndpoints .http f₁ = some e₁) (i₂ : analyzerEndpoints .http f₂ = some e₂)
     (hc : SameConn e₁ e₂) : workerHttp H n f₁ = workerHttp H n f₂ := by
   unfold analyzerEndpoints at i₁ i₂
@@ -119,7 +120,7 @@ theorem affinity_http_sameConn (H : HashIn → Nat) (n : Nat) (f₁ f₂ : Bytes
 
 /-- **affinity_http** in the `identity = some k` form, `k` an unordered endpoint pair. -/
 theorem affinity_http_partial (H : HashIn → Nat) (n : Nat) (f₁ f₂ : Bytes) (k : Conn)
-    (h₁ : ¬ KF.C18.seen .http true f₁) (h₂ : ¬ KF.C18.seen .http true f₂)
+    (h₁ : ¬ KF.C18.seen .http f₁) (h₂ : ¬ KF.C18.seen .http f₂)
     (i₁ : identityHttp f₁ = some k) (i₂ : identityHttp f₂ = some k) :
     workerHttp H n f₁ = workerHttp H n f₂ := by
   unfold identityHttp at i₁ i₂
@@ -136,11 +137,11 @@ theorem affinity_http_partial (H : HashIn → Nat) (n : Nat) (f₁ f₂ : Bytes)
       exact affinity_http_sameConn H n f₁ f₂ e₁ e₂ h₁ h₂ he₁ he₂ this
 
 -- non-vacuity: two segments of one connection, and its two directions
-example : ¬ KF.C18.seen .http true wOkA ∧ ¬ KF.C18.seen .http true wOkRev ∧
+example : ¬ KF.C18.seen .http wOkA ∧ ¬ KF.C18.seen .http wOkRev ∧
     (∃ e₁ e₂, analyzerEndpoints .http wOkA = some e₁ ∧ analyzerEndpoints .http wOkRev = some e₂ ∧
       SameConn e₁ e₂ ∧ e₁ ≠ e₂) := by
   refine ⟨by decide, by decide, _, _, rfl, rfl, by decide, by decide⟩
-example : identityTls wOkB ≠ none ∧ ¬ KF.C18.seen .tls true wOkB := by decide
+example : identityTls wOkB ≠ none ∧ ¬ KF.C18.seen .tls wOkB := by decide
 
 /-! ### (B) identity = endpoints of the well-formed frame of the declared link type -/
 
@@ -191,24 +192,24 @@ theorem kf_looksLikeEthernet_wire_witness :
 /-- raw IPv4 from 134.221.1.1, a bare SYN and its retransmission (40-byte frames): the analyzer
 decodes them as raw IPv4 with one source address, the hashers as Ethernet. -/
 theorem kf_looksLikeEthernet_witness :
-    KF.C18.seen .tcp false wRaw134a ∧ identityTcp wRaw134a = identityTcp wRaw134b ∧
+    KF.C18.seen .tcp wRaw134a ∧ identityTcp wRaw134a = identityTcp wRaw134b ∧
     identityTcp wRaw134a ≠ none ∧ workerTcp sumH 16 wRaw134a ≠ workerTcp sumH 16 wRaw134b := by decide
 
 theorem kf_nullFraming_witness :
-    KF.C18.seen .tcp false wNull4a ∧ identityTcp wNull4a = identityTcp wNull4b ∧
+    KF.C18.seen .tcp wNull4a ∧ identityTcp wNull4a = identityTcp wNull4b ∧
     identityTcp wNull4a ≠ none ∧ workerTcp sumH 16 wNull4a ≠ workerTcp sumH 16 wNull4b := by decide
 
 theorem kf_versionNibble_witness :
-    KF.C18.seen .tcp false wNib5a ∧ identityTcp wNib5a = identityTcp wNib5b ∧
+    KF.C18.seen .tcp wNib5a ∧ identityTcp wNib5a = identityTcp wNib5b ∧
     identityTcp wNib5a ≠ none ∧ workerTcp sumH 16 wNib5a ≠ workerTcp sumH 16 wNib5b := by decide
 
-/-- IHL = 0: the hashers' "ports" are bytes 0–3 of the IP header (version/TOS/total length). -/
-theorem kf_ihlBelow5_witness :
-    KF.C18.seen .http true wIhl0a ∧ ¬ KF.C18.seen .http false wIhl0a ∧
+/-- IHL = 0 (former class `KF.C18.ihlBelow5`, fixed by 68f354c): two segments of one connection
+now hash the ports the analyzer sees and reach the same worker. -/
+theorem ihl0_regression :
+    ¬ KF.C18.seen .http wIhl0a ∧ ¬ KF.C18.seen .http wIhl0b ∧
     analyzerEndpoints .http wIhl0a = analyzerEndpoints .http wIhl0b ∧
     analyzerEndpoints .http wIhl0a ≠ none ∧
-    workerHttp sumH 16 wIhl0a ≠ workerHttp sumH 16 wIhl0b ∧
-    workerTls sumH 16 wIhl0a ≠ workerTls sumH 16 wIhl0b := by decide
+    hashInputHttp wIhl0a = hashInputHttp wIhl0b ∧ hashInputTls wIhl0a = hashInputTls wIhl0b := by decide
 
 theorem full_tcp_fails : ¬ FullAffinityTcp := by
   intro h
@@ -221,7 +222,8 @@ theorem full_tcp_fails : ¬ FullAffinityTcp := by
 open Huginn.Gen.Wire in
 theorem gen_constants_match :
     phEthGt = 14 ∧ phEthType4 = 0x0800 ∧ phEthType6 = 0x86DD ∧ phTcpMin = 20 ∧ phHttpMin = 40 ∧
-    phTlsMin = 40 ∧ ppEthMin = 14 ∧ ppEthOff = 14 ∧ ppRawMin = 20 ∧ ppNullMin = 24 ∧
+    phTlsMin = 40 ∧ phHttpIhlMul = 4 ∧ phHttpIhlMin = 20 ∧ phTlsIhlMul = 4 ∧ phTlsIhlMin = 20 ∧
+    ppEthMin = 14 ∧ ppEthOff = 14 ∧ ppRawMin = 20 ∧ ppNullMin = 24 ∧
     ppNull0 = 0x1e ∧ ppNull1 = 0 ∧ ppNullOff = 4 := by decide
 
 end Huginn.Props.C18
